@@ -65,6 +65,8 @@ func c11Run(c *Case) (string, []Fail) {
 		return c11RunFormat(c)
 	case 5, 6:
 		return c11RunUnderFakeClock(c)
+	case 7:
+		return c11RunTwoMakers(c)
 	}
 	return "badcase", nil
 }
@@ -172,6 +174,7 @@ func c11RunIDClock(c *Case) (out string, fails []Fail) {
 	items := []string{strconv.FormatInt(base, 10)}
 	now, lastT, seq := base, int64(0), int32(0)
 	var prev string
+	seen := map[string]int{}
 	for i, d := range c.Z {
 		if d > 0 {
 			time.Sleep(time.Duration(d))
@@ -185,11 +188,17 @@ func c11RunIDClock(c *Case) (out string, fails []Fail) {
 		} else {
 			seq++
 		}
-		if want := fmt.Sprintf("%019d-%08d%s", now, seq, suffix); id != want && len(fails) < 4 {
-			fails = append(fails, Fail{"c11:idgen-scheme", fmt.Sprintf("id %d under clock advances %v is %q, the scheme gives %q", i, c.Z[:i+1], id, want)})
+		// the property: distinct ids, in generation order as byte strings (while the sequence fits its 8 digits).
+		// The exact scheme is NOT demanded here; a different scheme shows as a model/implementation difference.
+		if j, dup := seen[id]; dup && len(fails) < 4 {
+			fails = append(fails, Fail{"c11:id-dup", fmt.Sprintf("ids %d and %d are both %q (clock advances %v)", j, i, id, c.Z[:i+1])})
 		}
+		seen[id] = i
 		if i > 0 && !(prev < id) && seq < 100000000 && len(fails) < 4 {
 			fails = append(fails, Fail{"c11:id-order", fmt.Sprintf("id %d %q does not sort after %q (clock advances %v)", i, id, prev, c.Z[:i+1])})
+		}
+		if !strings.HasSuffix(id, suffix) && len(fails) < 4 {
+			fails = append(fails, Fail{"c11:id-suffix", fmt.Sprintf("id %q does not end with %q", id, suffix)})
 		}
 		prev = id
 	}
@@ -417,29 +426,11 @@ func c11RunPacker(c *Case) (out string, fails []Fail) {
 	}
 	ops = append(ops, opT{flush: true})
 	// ---- the real chunk maker
-	log := c11Logger()
-	var maker base.LogChunkMaker
-	suffix := ""
-	switch target {
-	case 0, 1, 2:
-		mode := []forwardprotocol.MessageMode{forwardprotocol.ModeForward, forwardprotocol.ModePackedForward, forwardprotocol.ModeCompressedPackedForward}[target]
-		oldR, oldB := fluentdforward.VerifSetChunkLimits(maxr, maxb)
-		cfg := &fluentdforward.Config{MessageMode: mode}
-		maker = cfg.NewChunkMaker(log, tag)
-		fluentdforward.VerifSetChunkLimits(oldR, oldB)
-		suffix = fluentdforward.VerifChunkIDSuffix()
-	case 3:
-		maker = datadog.VerifNewChunkMakerWithLimits(log, maxr, maxb)
-		suffix = datadog.VerifChunkIDSuffix()
-	case 4:
-		// the real constructor; its limits are constants, the case must carry the same values
-		cr, cb := datadog.VerifChunkLimits()
-		if cr != maxr || cb != maxb {
-			return "skip:limits-differ", nil
-		}
-		maker = (&datadog.Config{}).NewChunkMaker(log, tag)
-		suffix = datadog.VerifChunkIDSuffix()
+	mk, errOut := c11NewMaker(target, maxr, maxb, tag)
+	if mk == nil {
+		return errOut, nil
 	}
+	maker := mk.maker
 	if frozen == 1 {
 		gen, ok := shared.VerifPackerIDGenerator(maker)
 		if !ok {
@@ -467,10 +458,120 @@ func c11RunPacker(c *Case) (out string, fails []Fail) {
 		}
 		return nil
 	}()
-	t1 := time.Now().UnixNano()
 	if panicked != nil {
 		return "panic", []Fail{{"c11:panic", fmt.Sprintf("chunk maker panics (%v) on %s", panicked, c.Line())}}
 	}
+	items, fails := c11Judge(c, mk, frozen, streams, results)
+	prefix := "ok:"
+	if c.Kind == 6 {
+		prefix = fmt.Sprintf("fk:%d;", t0)
+	}
+	return prefix + strings.Join(items, ";"), fails
+}
+
+// kind 7: two chunk makers alive at the same time, their calls interleaved: nothing may be shared between them
+// (a package-level buffer, encoder or id generator would show as records or ids crossing over)
+func c11RunTwoMakers(c *Case) (out string, fails []Fail) {
+	if len(c.Z) < 6 || len(c.S) < 2 {
+		return "badcase", nil
+	}
+	var mks [2]*c11Maker
+	for w := 0; w < 2; w++ {
+		mk, errOut := c11NewMaker(int(c.Z[3*w]), int(c.Z[3*w+1]), int(c.Z[3*w+2]), string(c.S[w]))
+		if mk == nil || mk.target == 4 {
+			return "badcase:" + errOut, nil
+		}
+		mks[w] = mk
+	}
+	var streams [2][][]byte
+	var results [2][]*base.LogChunk
+	var order []int
+	zs := c.Z[6:]
+	panicked := func() (p interface{}) {
+		defer func() {
+			if r := recover(); r != nil {
+				p = r
+			}
+		}()
+		for i := 0; i+1 < len(zs); i += 2 {
+			w := 1
+			if zs[i] == 0 {
+				w = 0
+			}
+			order = append(order, w)
+			if zs[i+1] < 0 {
+				results[w] = append(results[w], mks[w].maker.FlushBuffer())
+			} else {
+				st := c11Synthetic(mks[w].target, int(zs[i+1]), i/2)
+				streams[w] = append(streams[w], st)
+				results[w] = append(results[w], mks[w].maker.WriteStream(base.LogStream(st)))
+			}
+		}
+		for w := 0; w < 2; w++ {
+			order = append(order, w)
+			results[w] = append(results[w], mks[w].maker.FlushBuffer())
+		}
+		return nil
+	}()
+	if panicked != nil {
+		return "panic", []Fail{{"c11:panic", fmt.Sprintf("chunk makers panic (%v) on %s", panicked, c11Short(c.Line()))}}
+	}
+	var items [2][]string
+	for w := 0; w < 2; w++ {
+		var f []Fail
+		items[w], f = c11Judge(c, mks[w], 0, streams[w], results[w])
+		fails = append(fails, f...)
+	}
+	var all []string
+	var pos [2]int
+	for _, w := range order {
+		if pos[w] < len(items[w]) {
+			all = append(all, items[w][pos[w]])
+			pos[w]++
+		}
+	}
+	return "two:" + strings.Join(all, ";"), fails
+}
+
+type c11Maker struct {
+	target, maxr, maxb int
+	tag, suffix        string
+	maker              base.LogChunkMaker
+}
+
+// c11NewMaker builds the real chunk maker of a target through the output's Config.NewChunkMaker
+func c11NewMaker(target, maxr, maxb int, tag string) (*c11Maker, string) {
+	log := c11Logger()
+	mk := &c11Maker{target: target, maxr: maxr, maxb: maxb, tag: tag}
+	switch target {
+	case 0, 1, 2:
+		mode := []forwardprotocol.MessageMode{forwardprotocol.ModeForward, forwardprotocol.ModePackedForward, forwardprotocol.ModeCompressedPackedForward}[target]
+		oldR, oldB := fluentdforward.VerifSetChunkLimits(maxr, maxb)
+		cfg := &fluentdforward.Config{MessageMode: mode}
+		mk.maker = cfg.NewChunkMaker(log, tag)
+		fluentdforward.VerifSetChunkLimits(oldR, oldB)
+		mk.suffix = fluentdforward.VerifChunkIDSuffix()
+	case 3:
+		mk.maker = datadog.VerifNewChunkMakerWithLimits(log, maxr, maxb)
+		mk.suffix = datadog.VerifChunkIDSuffix()
+	case 4:
+		// the real constructor; its limits are constants, the case must carry the same values
+		cr, cb := datadog.VerifChunkLimits()
+		if cr != maxr || cb != maxb {
+			return nil, "skip:limits-differ"
+		}
+		mk.maker = (&datadog.Config{}).NewChunkMaker(log, tag)
+		mk.suffix = datadog.VerifChunkIDSuffix()
+	default:
+		return nil, "badcase"
+	}
+	return mk, ""
+}
+
+// c11Judge decodes the results of one maker's calls (nil or chunk, in call order), returns the canonical item of
+// every call and the failures of the property's oracle; streams = the records written through this maker in order
+func c11Judge(c *Case, mk *c11Maker, frozen int64, streams [][]byte, results []*base.LogChunk) (items []string, fails []Fail) {
+	target, maxr, maxb, tag, suffix := mk.target, mk.maxr, mk.maxb, mk.tag, mk.suffix
 	// ---- decode
 	fail := func(sig, format string, a ...interface{}) {
 		if len(fails) < 8 {
@@ -495,25 +596,16 @@ func c11RunPacker(c *Case) (out string, fails []Fail) {
 		ids[i] = ch.ID
 	}
 	// ---- canonical output
-	var sb strings.Builder
-	sb.WriteString("ok:")
-	if c.Kind == 6 {
-		sb.Reset()
-		fmt.Fprintf(&sb, "fk:%d;", t0)
-	}
 	k := 0
-	for i, ch := range results {
-		if i > 0 {
-			sb.WriteByte(';')
-		}
+	for _, ch := range results {
 		if ch == nil {
-			sb.WriteByte('-')
+			items = append(items, "-")
 			continue
 		}
 		d := decs[k]
 		k++
 		if d.err != "" {
-			sb.WriteString("undecodable")
+			items = append(items, "undecodable")
 			continue
 		}
 		rank := 0
@@ -553,14 +645,13 @@ func c11RunPacker(c *Case) (out string, fails []Fail) {
 			payload = hex.EncodeToString(d.payload)
 		}
 		if c.Kind == 6 {
-			fmt.Fprintf(&sb, "%s.%s.%s.%s.%s.%s", ch.ID, map[bool]string{true: "1", false: "0"}[idok], size, flags,
-				hex.EncodeToString([]byte(d.tag)), payload)
+			items = append(items, fmt.Sprintf("%s.%s.%s.%s.%s.%s", ch.ID, map[bool]string{true: "1", false: "0"}[idok], size, flags,
+				hex.EncodeToString([]byte(d.tag)), payload))
 			continue
 		}
-		fmt.Fprintf(&sb, "%d.%s.%s.%s.%s.%s.%s", rank, seq, map[bool]string{true: "1", false: "0"}[idok], size, flags,
-			hex.EncodeToString([]byte(d.tag)), payload)
+		items = append(items, fmt.Sprintf("%d.%s.%s.%s.%s.%s.%s", rank, seq, map[bool]string{true: "1", false: "0"}[idok], size, flags,
+			hex.EncodeToString([]byte(d.tag)), payload))
 	}
-	out = sb.String()
 
 	// ---- the property's oracle
 	// are the inputs records of the target's format? (a stream that is not one record cannot be carried faithfully
@@ -594,13 +685,12 @@ func c11RunPacker(c *Case) (out string, fails []Fail) {
 			if validInput {
 				fail("c11:undecodable", "chunk %d (%s) does not decode: %s", i, ch.ID, d.err)
 			}
-			return out, fails
+			return items, fails
 		}
 		// --- identity
-		if !c11IDRe.MatchString(ch.ID) || ch.ID[28:] != suffix {
-			fail("c11:id-format", "chunk id %q is not <19 digits>-<8 digits>%s", ch.ID, suffix)
-		} else if ts, _ := strconv.ParseInt(ch.ID[:19], 10, 64); ts < t0 || ts > t1 {
-			fail("c11:id-time", "chunk id %q does not carry the wall clock (%d..%d)", ch.ID, t0, t1)
+		// (the exact id scheme - digits, widths, clock - is compared with the model, not demanded here)
+		if !strings.HasSuffix(ch.ID, suffix) {
+			fail("c11:id-suffix", "chunk id %q does not end with the output's suffix %q (MatchChunkID)", ch.ID, suffix)
 		}
 		for j := 0; j < i; j++ {
 			if ids[j] == ch.ID {
@@ -609,9 +699,6 @@ func c11RunPacker(c *Case) (out string, fails []Fail) {
 		}
 		if i > 0 && !(ids[i-1] < ch.ID) {
 			fail("c11:id-order", "chunk id %q does not sort after its predecessor %q", ch.ID, ids[i-1])
-		}
-		if frozen == 1 && len(ch.ID) >= 28 && ch.ID[20:28] != fmt.Sprintf("%08d", i+1) {
-			fail("c11:id-seq", "chunk %d: sequence part of %q is not %08d although the clock never passes the epoch", i, ch.ID, i+1)
 		}
 		// --- number of records and content
 		n := -1
@@ -632,12 +719,12 @@ func c11RunPacker(c *Case) (out string, fails []Fail) {
 			}
 			if n < 0 || at+n > len(streams) {
 				fail("c11:size", "chunk %s: option.size=%d but only %d records were written and not yet emitted", ch.ID, d.size, len(streams)-at)
-				return out, fails
+				return items, fails
 			}
 			want := bytes.Join(streams[at:at+n], nil)
 			if !bytes.Equal(want, d.payload) {
 				fail("c11:payload", "chunk %s (size %d): entries are not records %d..%d in order: got %s want %s", ch.ID, n, at, at+n-1, c11Hex(d.payload), c11Hex(want))
-				return out, fails
+				return items, fails
 			}
 			if allEntries {
 				var msg forwardprotocol.Message
@@ -671,7 +758,7 @@ func c11RunPacker(c *Case) (out string, fails []Fail) {
 			}
 			if n < 0 {
 				fail("c11:payload", "chunk %s: body %s is not a JSON array of the next records (from record %d)", ch.ID, c11Hex(d.payload), at)
-				return out, fails
+				return items, fails
 			}
 			if validInput {
 				var arr []json.RawMessage
@@ -702,7 +789,7 @@ func c11RunPacker(c *Case) (out string, fails []Fail) {
 	if at != len(streams) {
 		fail("c11:lost", "%d records written, %d found in the chunks after the final flush", len(streams), at)
 	}
-	return out, fails
+	return items, fails
 }
 
 func c11Hex(b []byte) string {
@@ -746,11 +833,6 @@ func c11RunIDScript(c *Case) (out string, fails []Fail) {
 		id := gen.Generate()
 		t1 := time.Now().UnixNano()
 		e1, s1 := gen.State()
-		// reference: what the documented scheme gives
-		var wantSeq int32
-		if emode != 0 {
-			wantSeq = s0 + 1 // wraps like the int32 field
-		}
 		canon := "BAD" + hex.EncodeToString([]byte(id))
 		var ts int64 = -1
 		if len(id) >= 19 {
@@ -758,11 +840,6 @@ func c11RunIDScript(c *Case) (out string, fails []Fail) {
 				ts = v
 				canon = "T" + id[19:]
 			}
-		}
-		if ts < 0 {
-			fails = append(fails, Fail{"c11:idgen-time", fmt.Sprintf("id %q does not start with the 19-digit wall clock reading", id)})
-		} else if want := fmt.Sprintf("%019d-%08d%s", ts, wantSeq, suffix); id != want {
-			fails = append(fails, Fail{"c11:idgen-scheme", fmt.Sprintf("epoch mode %d, sequence %d: id %q, scheme gives %q", emode, s0, id, want)})
 		}
 		ecls := "?"
 		if e1 == ts {
@@ -786,19 +863,17 @@ func c11RunIDNatural(c *Case) (out string, fails []Fail) {
 	}
 	gen := shared.VerifNewChunkIDGenerator(".ff")
 	ids := make([]string, n)
-	t0 := time.Now().UnixNano()
 	for i := range ids {
 		ids[i] = gen.Generate()
 	}
-	t1 := time.Now().UnixNano()
 	inc, shape := 1, 1
 	seen := map[string]int{}
 	for i, id := range ids {
 		if !c11IDRe.MatchString(id) || id[28:] != ".ff" {
 			shape = 0
-			fails = append(fails, Fail{"c11:id-format", fmt.Sprintf("id %q is not <19 digits>-<8 digits>.ff", id)})
-		} else if ts, _ := strconv.ParseInt(id[:19], 10, 64); ts < t0 || ts > t1 {
-			fails = append(fails, Fail{"c11:id-time", fmt.Sprintf("id %q does not carry the wall clock", id)})
+		}
+		if !strings.HasSuffix(id, ".ff") {
+			fails = append(fails, Fail{"c11:id-suffix", fmt.Sprintf("id %q does not end with .ff", id)})
 		}
 		if j, dup := seen[id]; dup {
 			fails = append(fails, Fail{"c11:id-dup", fmt.Sprintf("ids %d and %d are both %q", j, i, id)})
@@ -939,7 +1014,7 @@ func c11GenLiteral(g *Gen, target int) {
 		frozen = 1
 	}
 	nops := r.PickInt([]int{0, 1, 2, 3, 5, 8, 12, 20, 30})
-	if g.Thorough() && r.Chance(1, 20) {
+	if g.Thorough() && r.Chance(1, 40) {
 		nops = r.Range(100, 300)
 	}
 	repeatP := r.PickInt([]int{0, 0, 3, 8}) // exact repeats of earlier streams, out of 10
@@ -1128,7 +1203,7 @@ func c11GenIDs(g *Gen) {
 
 func c11Gen(g *Gen) {
 	for target := 0; target <= 3; target++ {
-		for i := 0; i < g.Pick(500, 12000); i++ {
+		for i := 0; i < g.Pick(450, 4000); i++ {
 			c11GenLiteral(g, target)
 		}
 		for i := 0; i < g.Pick(250, 5000); i++ {
@@ -1163,6 +1238,55 @@ func c11Gen(g *Gen) {
 	c11GenDatadogReal(g)
 	c11GenIDs(g)
 	c11GenFakeClock(g)
+	c11GenTwoMakers(g)
+}
+
+// kind 7: two makers (any two targets, own limits and tags), calls interleaved at random
+func c11GenTwoMakers(g *Gen) {
+	r := g.R
+	for i := 0; i < g.Pick(400, 8000); i++ {
+		z := []int64{}
+		var bases [2]int
+		var maxbs [2]int
+		for w := 0; w < 2; w++ {
+			target := r.Intn(4)
+			if r.Chance(1, 2) && w == 1 {
+				target = int(z[0]) // same output twice: the likeliest place for shared state
+			}
+			bases[w] = r.PickInt([]int{1, 2, 3, 10, 33})
+			per := r.Range(1, 4)
+			maxb := per*bases[w] + r.Range(-2, 2)
+			if target >= 3 {
+				maxb += per + 1
+			}
+			if r.Chance(1, 6) || maxb < 0 {
+				maxb = 0
+			}
+			maxbs[w] = maxb
+			z = append(z, int64(target), int64(r.PickInt([]int{0, 0, 1, 2, 3})), int64(maxb))
+		}
+		for j := r.PickInt([]int{2, 4, 8, 16, 40}); j > 0; j-- {
+			w := r.Intn(2)
+			if r.Chance(1, 7) {
+				z = append(z, int64(w), -1)
+				continue
+			}
+			n := bases[w] + r.PickInt([]int{-1, 0, 0, 1})
+			if r.Chance(1, 10) {
+				n = maxbs[w] + r.Range(-1, 2)
+			}
+			lo := 0
+			if z[3*w] == 0 || z[3*w] >= 3 {
+				lo = 1
+			}
+			if n < lo {
+				n = lo
+			}
+			z = append(z, int64(w), int64(n))
+		}
+		g.Count("two-makers")
+		g.Case(7, [][]byte{c11Tag(r), c11Tag(r)}, z)
+	}
 }
 
 // kinds 5 and 6: scripted clock advances under the runtime's fake clock (one child process per case)
